@@ -4,7 +4,12 @@ import common
 from common import Case
 
 TITLE = 'Card, call, contract, seat and vulnerability notations are exact inverses'
-REQUIRED = ['deck_complete', 'calls_complete', 'card_int_round_trip', 'card_str_round_trip', 'card_notations_injective',
+LEAN_TARGETS = ['BridgeVerif.Props.C15', 'BridgeVerif.Translated.Notation', 'BridgeVerif.Translated.Contract']
+AUDIT_PROPS = ['C15', 'Translated.Notation', 'Translated.Contract']
+REQUIRED = ['translated_contract_is_model', 'Translated.Notation.player_moves', 'Translated.Notation.bid_numbers',
+            'Translated.Notation.bid_texts', 'Translated.Notation.card_numbers', 'Translated.Notation.card_texts',
+            'Translated.Notation.vul_texts', 'Translated.Contract.contract_translated',
+            'deck_complete', 'calls_complete', 'card_int_round_trip', 'card_str_round_trip', 'card_notations_injective',
             'card_order_is_index_order', 'bid_idx_round_trip', 'bid_str_round_trip', 'bid_level_suit_round_trip',
             'bid_notations_injective', 'seat_formal_name_round_trip', 'suit_name_round_trip', 'vul_round_trip',
             'contract_text_round_trip', 'passed_out_text_round_trip', 'contract_text_injective']
@@ -23,6 +28,9 @@ VULS = ['None', 'NS', 'EW', 'Both']
 SEATS = ['N', 'E', 'S', 'W']
 SUITS = ['C', 'D', 'H', 'S', 'NT']
 
+
+# areas of the pure core whose TRANSLATION (Generated/PyCore.lean) is run next to the real code in this check
+TRANSLATED_AREAS = ('notation',)
 
 def hx(s):
     return s.encode('utf-8').hex() if s else '-'
